@@ -239,7 +239,9 @@ namespace rpc
     struct Crc32Hasher {
         using ValueType = uint32_t;
 
-        static constexpr ValueType init_value() { return 0; };
+        // non-zero: with a zero initial value the CRC ignores leading zero
+        // bytes, so dropping (or inserting) them at the front went undetected
+        static constexpr ValueType init_value() { return 0xffffffffu; };
 
         static void extend_hash(ValueType& value, const iovector* iov) {
             for (const auto iter : *iov)
